@@ -867,3 +867,42 @@ add("cons-07-linear-raises-only-rows-at-old-min", ["C05", "C01"], "countmin",
     "        count = cms[row, buckets[row]]\n        if count < new_count:\n            cms[row, buckets[row]] = new_count\n\n\n@njit(\n    types.void(\n        uint32[:, :],\n        uint64[:],\n        uint64[:],\n        uint64,\n        uint64,\n        uint32,\n        types.Bytes(types.uint8, 1, \"C\"),\n        uint64,",
     "        count = cms[row, buckets[row]]\n        if count == min_count:\n            cms[row, buckets[row]] = new_count\n\n\n@njit(\n    types.void(\n        uint32[:, :],\n        uint64[:],\n        uint64[:],\n        uint64,\n        uint64,\n        uint32,\n        types.Bytes(types.uint8, 1, \"C\"),\n        uint64,",
     rules=["cons"])
+
+add("E-wrapper-01-add-zero-is-noop", ["C01", "C05", "C12"], "countmin",
+    "        value = min(value, self.uint_maxval)\n\n        _add_linear(", "        if value <= 0:\n            return\n        value = min(value, self.uint_maxval)\n\n        _add_linear(", kind="E")
+
+add("dfg-15-fasthash-tail-mixed-only-if-nonzero", ["C11"], "hashes",
+    "        v ^= uint64(tail[0])\n        h ^= _fhmix64(v)\n        h *= m\n\n    return _fhmix64(h)", "        v ^= uint64(tail[0])\n        if v:\n            h ^= _fhmix64(v)\n            h *= m\n\n    return _fhmix64(h)", rules=["dfg"])
+add("E-dfg-05-fasthash-skip-xor-of-zero-mix", ["C11"], "hashes",
+    "        v ^= uint64(tail[0])\n        h ^= _fhmix64(v)\n        h *= m\n\n    return _fhmix64(h)", "        v ^= uint64(tail[0])\n        if v != 0:\n            h ^= _fhmix64(v)\n        h *= m\n\n    return _fhmix64(h)", kind="E")
+
+add("scan-04-candidates-deduped-by-padded-slot", ["C04", "C13"], "heavyhitters",
+    "        # Generate candidate list\n        for row in range(self.depth):", "        seen = set()\n        # Generate candidate list\n        for row in range(self.depth):",
+    also=[("heavyhitters", "                if self.candidate_set[key] == 0:\n                    max_count = _max_count(", "                stored = self.lhh[row, column].tobytes()\n                if stored not in seen:\n                    seen.add(stored)\n                    max_count = _max_count(")],
+    rules=["scan-all"])
+
+add("alias-04-hll-query-cached", ["C17", "C02"], "hyperloglog",
+    "        return _query(\n            self.registers,\n            self.m,\n            self.threshold,\n            self.alpha,\n            self.raw_estimate,\n            self.bias_data,\n        )",
+    "        if getattr(self, \"_cardinality\", None) is None:\n            self._cardinality = _query(\n                self.registers,\n                self.m,\n                self.threshold,\n                self.alpha,\n                self.raw_estimate,\n                self.bias_data,\n            )\n        return self._cardinality",
+    rules=["wrapper-once"])
+
+add("guard-raise-01-log8-message-reads-other-max-count", ["C15"], "countmin",
+    "            raise TypeError(\n                \"self and other have different width|depth|type|max_count|num_reserved\"\n            )\n\n        _merge_log8(",
+    "            raise TypeError(\n                f\"self and other differ: other has max_count={other.max_count}\"\n            )\n\n        _merge_log8(", rules=["guard-order"])
+add("E-guard-raise-01-message-reads-common-attrs", ["C15"], "countmin",
+    "            raise TypeError(\n                \"self and other have different width|depth|type|max_count|num_reserved\"\n            )\n\n        _merge_log8(",
+    "            raise TypeError(\n                f\"self and other differ: other is {other.width}x{other.depth}\"\n            )\n\n        _merge_log8(", kind="E")
+add("dead-08-monitor-stops-without-final-pass", ["C19"], "helpers",
+    "    any_none = True\n    while any_none:\n        sleep(1)\n        any_none = False\n        for i, p in enumerate(workers):\n            # Still running\n            if p.exitcode is None:\n                any_none = True\n            # Finished but with non-zero exit code, which is bad\n            elif p.exitcode != 0:",
+    "    while any(p.exitcode is None for p in workers):\n        sleep(1)\n        for i, p in enumerate(workers):\n            # Finished but with non-zero exit code, which is bad\n            if p.exitcode is not None and p.exitcode != 0:", rules=["dead-detect"])
+add("E-dead-03-explicit-not-none-conjunct", ["C19"], "helpers",
+    "            elif p.exitcode != 0:", "            elif p.exitcode is not None and p.exitcode != 0:", kind="E")
+add("args-01-hh-default-threshold-depends-on-args", ["C10", "C13"], "heavyhitters",
+    "        if threshold is None:\n            threshold = np.uint32(self.phi * self.n_added())\n        else:\n            threshold = np.uint32(threshold)\n\n        if (self.n_added_sort",
+    "        if threshold is None:\n            if self.args[\"phi\"] is None:\n                threshold = np.uint32(self.n_added() // self.width)\n            else:\n                threshold = np.uint32(self.phi * self.n_added())\n        else:\n            threshold = np.uint32(threshold)\n\n        if (self.n_added_sort",
+    rules=["args-private", "filter"])
+add("E-filter-02-default-threshold-helper", ["C13", "C04", "C10"], "heavyhitters",
+    "        if threshold is None:\n            threshold = np.uint32(self.phi * self.n_added())\n        else:\n            threshold = np.uint32(threshold)\n\n        if (self.n_added_sort",
+    "        if threshold is None:\n            threshold = self._default_threshold()\n        else:\n            threshold = np.uint32(threshold)\n\n        if (self.n_added_sort", kind="E",
+    also=[("heavyhitters", "    def add(self, key: bytes, value: int = 1) -> None:\n        \"\"\"\n        Add a single `key` to the heavy hitters sketch",
+           "    def _default_threshold(self):\n        return np.uint32(self.phi * self.n_added())\n\n    def add(self, key: bytes, value: int = 1) -> None:\n        \"\"\"\n        Add a single `key` to the heavy hitters sketch")])
